@@ -10,6 +10,7 @@ FEAT=""; if grep -q '"features"' $OUT/meta.json 2>/dev/null && grep -q security 
 [ -n "${SEED_FEATURES:-}" ] && FEAT="--features $SEED_FEATURES"
 git -C /repo worktree remove --force $WT 2>/dev/null; git -C /repo worktree add -q $WT HEAD || exit 3
 cd $WT
+[ -f Cargo.lock ] || cp /repo/Cargo.lock .
 DEMO=$(python3 -c "import json;print(json.load(open('$OUT/meta.json')).get('demo_test',''))")
 echo "== seed $SID demo_test=$DEMO features=$FEAT"
 git apply $OUT/demo.diff || { echo "demo.diff does not apply"; exit 3; }
